@@ -42,17 +42,32 @@ ANG_TOL = 1e-9
 
 
 def _simplified(cons):
+    """simplified constraints with top-level conjunctions split (so that slicing can keep `s >= 0` of a contract `s >= 0 and s*s == ...`)"""
     out = []
+
+    def add(c):
+        if z3.is_and(c):
+            for ch in c.children():
+                add(ch)
+        elif not z3.is_true(c):
+            out.append(c)
+
     for c in cons:
-        c2 = z3.simplify(c)
-        if not z3.is_true(c2):
-            out.append(c2)
+        add(z3.simplify(c))
     return out
 
 
-def slice_plus(goal, cons, free=("turn!", "ident!")):
-    """constraints over the goal's variables, where the integer turn counters of fmod/identify contracts count as always available"""
-    return slice_vars(fv(goal), cons, tuple(free))
+def slice_plus(goal, cons, free=("turn!", "ident!"), hop=4):
+    """constraints over the goal's variables (the integer turn counters of fmod/identify contracts count as always available), after one hop
+    through small constraints (at most `hop` variables: signs, ranges, definitions) that touch the goal's variables"""
+    V = set(fv(goal))
+    if hop:
+        V0 = frozenset(V)
+        for c in cons:
+            vc = fv(c)
+            if len(vc) <= hop and vc & V0:
+                V |= vc
+    return slice_vars(frozenset(V), cons, tuple(free))
 
 
 def abstract_products(formulas):
@@ -87,7 +102,18 @@ def abstract_products(formulas):
     return [walk(f) for f in formulas]
 
 
-def prove(rep, label, goal, cons, timeout_ms=30000, lemmas=(), abstract=(), products=False, **kw):
+def slice_pc(goal, cons, pc, free=("turn!", "ident!")):
+    """constraints over the goal's variables and the variables of the path's own branch decisions that mention one of them"""
+    V0 = fv(goal)
+    V = set(V0)
+    for c in pc:
+        vc = fv(c)
+        if vc & V0:
+            V |= vc
+    return slice_vars(frozenset(V), cons, tuple(free))
+
+
+def prove(rep, label, goal, cons, timeout_ms=30000, lemmas=(), abstract=(), products=False, pc=None, **kw):
     """Discharge `goal` under the path constraints `cons`.
 
     1. (cheap, sound for `unsat`) the query is first tried in a *generalised* form: constraints are simplified, the harness may name
@@ -112,11 +138,33 @@ def prove(rep, label, goal, cons, timeout_ms=30000, lemmas=(), abstract=(), prod
         fs = abstract_products([z3.simplify(g)] + [z3.simplify(c) for c in hy])
         g, hy = fs[0], fs[1:]
     lv = z3.And(g, *[z3.substitute(l, *[(t, v) for t, v in abstract]) if abstract else l for l in lemmas]) if lemmas else g
-    sl = slice_plus(lv, hy)
-    v0 = refute(g, sl, min(timeout_ms, 15000))
+    v0, seen_sizes = None, set()
+    for hop, to in ((0, 4000), ("pc", 6000), (4, 6000), (6, 10000)):  # growing slices, each sound for `unsat`
+        if hop == "pc":
+            if pc is None or abstract:
+                continue
+            sl = slice_pc(lv, hy, pc)
+        else:
+            sl = slice_plus(lv, hy, hop=hop)
+        if len(sl) in seen_sizes:
+            continue
+        seen_sizes.add(len(sl))
+        v0 = refute(g, sl, min(timeout_ms, to))
+        if __import__("os").environ.get("C12_DEBUG") and "exact-perigee-quadrant" in label:
+            print("  HOP", hop, v0.status, round(v0.secs, 2), len(sl), flush=True)
+            if hop == 0 and v0.status != "unsat":
+                sol = z3.Solver(); sol.add(*sl); sol.add(z3.Not(g))
+                open("/tmp/build/C12/q_%s.smt2" % label.replace("[", "_").replace("]", ""), "w").write(sol.to_smt2())
+            if False:
+                print("GOAL", g)
+                for c in sl:
+                    print("   H", str(c)[:300].replace("\n", " "))
+                print("MODEL", v0.model)
+        if v0.status == "unsat":
+            break
     if __import__("os").environ.get("C12_DEBUG"):
         print("PROVE", label, v0.status, round(v0.secs, 2), len(sl), len(hy), flush=True)
-        if v0.status != "unsat" and "FFFFFFFF" in label:
+        if False:
             print("GOAL", g)
             for c in sl:
                 print("   H", str(c)[:400].replace("\n", " "))
@@ -192,6 +240,14 @@ def _sing_expected(e, inc, raan, argp, nu):
     return inclined, eccentric, exp_raan, exp_argp, exp_anom
 
 
+def _sing_expected_retro(e, inc, raan, argp, nu):
+    """retrograde equatorial orbits: the node angle is measured the other way round; the combined angle that keeps the state is argp - raan
+    (what O1c checks).  The docstrings only say 'approximately raan + argp', so both readings are accepted here."""
+    w = wrap2pi_term
+    eccentric = e >= rv(TOL_E)
+    return z3.If(eccentric, w(argp - raan), rv(0)), z3.If(eccentric, nu, w(nu + argp - raan))
+
+
 def _py_wrap(x):
     return x % (2 * math.pi)
 
@@ -207,7 +263,12 @@ def replay_sing(d):
     exp = [raan if inclined else 0.0, (argp if inclined else _py_wrap(raan + argp)) if eccentric else 0.0,
            nu if eccentric else (_py_wrap(nu + argp) if inclined else _py_wrap(nu + argp + raan))]
     detail = {"returned": out, "documented": exp}
-    bad = any(_circ_dist(o, x) > ANG_TOL / 2 for o, x in zip(out, exp)) or any(not (0 <= o < 2 * math.pi) for o in out)
+    if inc > math.pi - TOL_I:  # retrograde equatorial: either reading of the combined angle (see _sing_expected_retro)
+        alt = [0.0, _py_wrap(argp - raan) if eccentric else 0.0, nu if eccentric else _py_wrap(nu + argp - raan)]
+        bad = any(min(_circ_dist(o, x), _circ_dist(o, y)) > ANG_TOL / 2 for o, x, y in zip(out, exp, alt))
+    else:
+        bad = any(_circ_dist(o, x) > ANG_TOL / 2 for o, x in zip(out, exp))
+    bad = bad or any(not (0 <= o < 2 * math.pi) for o in out)
     if "a" in d:
         x0 = coe2eci(d["a"], e, inc, raan, argp, nu)
         x1 = coe2eci(d["a"], e, inc, *out)
@@ -247,8 +308,14 @@ def o1_sing(rep):
             continue
         if m is not True:
             classes.add((z3.is_true(m.eval(inclined, model_completion=True)), z3.is_true(m.eval(eccentric, model_completion=True))))
+        retro_eq = V["inc"] > rv(math.pi - TOL_I)
+        y_argp, y_anom = _sing_expected_retro(V["e"], V["inc"], V["raan"], V["argp"], V["nu"])
+        alt = {"argp": y_argp, "anomaly": y_anom}
         for nm, o, x in (("raan", o_raan, x_raan), ("argp", o_argp, x_argp), ("anomaly", o_anom, x_anom)):
-            rep.prove(f"{nm}-documented[{tag(r)}]", z3.And(o - x <= tol, x - o <= tol), cons, inputs=inputs, replay=replay_sing,
+            g = z3.And(o - x <= tol, x - o <= tol)
+            if nm in alt:
+                g = z3.Or(g, z3.And(retro_eq, o - alt[nm] <= tol, alt[nm] - o <= tol))
+            rep.prove(f"{nm}-documented[{tag(r)}]", g, cons, inputs=inputs, replay=replay_sing,
                       sample=f"singularityCheck: returned {nm} is the documented (combined) angle / zero for its orbit class, thresholds straddled")
             rep.prove(f"{nm}-range[{tag(r)}]", z3.And(o >= 0, o < TWOPI), cons, inputs=inputs, replay=replay_sing, sample=f"returned {nm} in [0, 2pi)")
     if len(classes) < 4:
@@ -647,15 +714,17 @@ class _Iface:
         self.rho, self.vr, self.vt = rho, vr, vt
         assume(rho.t >= 600, rho.t <= 100000, vt.t > 0, (rho * vt).t >= 1000)
         self.inc, self.ci, self.si = _inc_input(inc_fixed)
+        self.band = False
         if inc_fixed is None:
             inside = z3.And(self.inc.t >= rv(TOL_I), self.inc.t <= rv(math.pi - TOL_I))
             if inclined is True:
                 # trusted numeric fact about the sine on [limit, pi - limit] (sin(1.745e-9) > 1.7e-9)
                 assume(inside, self.si.t >= rv(1.7e-9))
-            elif inclined == "direct":
-                assume(self.inc.t < rv(TOL_I))
+            elif inclined == "direct":  # trusted numeric fact: cos x > 0.999999 for 0 <= x < limit
+                assume(self.inc.t < rv(TOL_I), self.ci.t > rv(0.999999))
             elif inclined == "retro":
-                assume(self.inc.t > rv(math.pi - TOL_I))
+                assume(self.inc.t > rv(math.pi - TOL_I), self.ci.t < rv(-0.999999))
+            self.band = inclined in ("direct", "retro")
         self.raan = SReal(raan_fixed) if raan_fixed is not None else _ang("raan")
         self.u = _ang("u")
         self.uh, self.wh, self.hh = _frame(self.raan, self.inc, self.u)
@@ -663,10 +732,11 @@ class _Iface:
         self.vel = simp(vr * self.uh + vt * self.wh)
         self.x = np.concatenate([self.pos, self.vel])
         self.V2 = vr * vr + vt * vt
-        self.A = vt * vt * rho / mu - 1
-        self.B = -(rho * vr * vt) / mu
-        self.E2 = simp(self.A * self.A + self.B * self.B)
-        self.E = self.E2.sqrt()
+        # cut variables (no loss of generality: they are functions of rho, vr, vt):  A = vt^2 rho/mu - 1 (= e cos nu),  B = -rho vr vt/mu (= -e sin nu),
+        # E = sqrt(A^2 + B^2) (= e)
+        self.A, self.B, self.E = real("e_cos_nu"), real("minus_e_sin_nu"), real("ecc")
+        assume((mu * (1 + self.A)).t == (vt * vt * rho).t, (mu * self.B).t == (-(rho * vr * vt)).t, self.E.t >= 0, (self.E * self.E).t == (self.A * self.A + self.B * self.B).t)
+        self.E2 = self.A * self.A + self.B * self.B
         self.sma = mu * rho / (2 * mu - rho * self.V2)
         # bound orbit inside the stated element ranges
         assume(self.E.t < rv(0.9), (2 * mu - rho * self.V2).t > 0, self.sma.t >= 6600, self.sma.t <= 50000)
@@ -677,12 +747,12 @@ class _Iface:
         A, B, E, rho, vr, vt, si, ci = self.A, self.B, self.E, self.rho, self.vr, self.vt, self.si, self.ci
         cn = Canon()
         cn.add("rho", rho, True).add("rho*vt", rho * vt, True).add("rho*vt*si", simp(rho * vt * si), True).add("E", E, True)
-        cn.add_square("v^2", self.V2).add_square("e^2", self.E2)
+        cn.add_square("v^2", self.V2)
         cn.add("rho*vr", rho * vr).add("ci", ci).add("cos raan", self.cO).add("sin raan", self.sO).add("cos u", self.cu)
         cn.add("rho cos u", rho * self.cu)
         cn.add_vec("h", simp(rho * vt * self.hh))
         cn.add_vec("node", simp(rho * vt * si * np.array([self.cO, self.sO, SReal(0)], dtype=object)))
-        ev = simp(A * self.uh + B * self.wh)
+        ev = np.array([A * self.uh[j] + B * self.wh[j] for j in range(3)], dtype=object)  # built from A, B as they are (the proofs name these sub-terms)
         cn.add_vec("e_vec", ev)
         cn.add_vec("e_hat", np.array([x / E for x in ev], dtype=object))
         cn.add("n.e", (A * self.cu - B * self.su) / E).add("e.r", A * rho / E).add("A/E", A / E)
@@ -690,7 +760,7 @@ class _Iface:
         p = cur()
         pins = []
         for k in range(4):
-            pp = [rho.t == 7000 + 1000 * k, vr.t == rv(Fraction([1, -1, 2, 0][k], 2)), vt.t == 7]
+            pp = [rho.t == 7000 + 1000 * k, self.B.t == rv(Fraction([3, -3, 4, 0][k], 10)), self.A.t == rv(Fraction([4, 4, -3, 1][k], 10))]
             if self.inc_fixed is None:
                 pp.append(ci.t == rv([Fraction(3, 5), Fraction(-4, 5), Fraction(5, 13), Fraction(-12, 13)][k]))
             pp += angle_pins(p, ("raan", "u"), k)
@@ -701,6 +771,8 @@ class _Iface:
     def inputs(self, path):
         def f(m):
             d = {"rho": mfloat(m, self.rho.t), "vr": mfloat(m, self.vr.t), "vt": mfloat(m, self.vt.t), "inc": _inc_value(m, self.inc_fixed)}
+            if self.band:  # inside a threshold band the inclination itself (not its cosine, which is 1 to 18 digits) identifies the input
+                d["inc"] = min(math.pi, max(0.0, mfloat(m, self.inc.t)))
             d["raan"] = float(self.raan_fixed) if self.raan_fixed is not None else model_angle(m, path, z3.Real("raan"))
             d["u"] = model_angle(m, path, z3.Real("u"))
             return d
@@ -801,7 +873,7 @@ def _o3_check(rep, make, label, expect_classes, regions=None):
         st, cn, out = r.out
         cons = r.constraints
         inputs = st.inputs(r.path)
-        kw = dict(inputs=inputs, replay=replay_eci2coe, regions=regions)
+        kw = dict(inputs=inputs, replay=replay_eci2coe, regions=regions, pc=r.path.pc)
         sma, ecc, inc, raan, argp, anom = out
         pinsets = cn.pins
         m = reach(rep, f"{label}-path[{t}]", cons, pinsets)
@@ -845,18 +917,80 @@ def _o3_check(rep, make, label, expect_classes, regions=None):
         if not is_ecc:
             prove(rep, f"{label}-argp-zero[{t}]", _z(argp) == 0, cons, sample="circular orbit: argument of perigee reported as 0", **kw)
         # argument of latitude reproduced: argp + anomaly == u (mod 2pi); with raan = 0 in the equatorial families this is the true longitude
-        total = (argp + anom) if isinstance(argp + anom, SReal) else SReal(argp + anom)
+        argp, anom = (v if isinstance(v, SReal) else SReal(float(v)) for v in (argp, anom))
+        total = argp + anom
+        cu, su = st.cu.t, st.su.t
         with resume(r.path):
             ct, st_ = total.cos().t, total.sin().t
-            la = None
-            ab = []
-            if is_ecc and isinstance(anom, SReal):
+            if is_ecc:
                 cv, sv = anom.cos().t, anom.sin().t
-                g = z3.And(cv * E == A, sv * E == -B)
-                la = lemma(prove(rep, f"{label}-true-anomaly[{t}]", g, cons, sample="eccentric orbit: cos nu = e_vec.r_hat/e, sin nu has the sign of r.v (e cos nu, e sin nu from the state)", **kw), g)
-        g = z3.And(_close(ct, st.cu.t, 1e-9), _close(st_, st.su.t, 1e-9))
-        prove(rep, f"{label}-argument-of-latitude[{t}]", g, cons, lemmas=[la] if la is not None else [], timeout_ms=60000,
-              sample="argp + anomaly = argument of latitude of the state (mod 2pi): the returned angles place the satellite where it is", **kw)
+                cw, sw = argp.cos().t, argp.sin().t
+        goal = z3.And(_close(ct, cu, 1e-9), _close(st_, su, 1e-9))
+        smp = "argp + anomaly = argument of latitude of the state (mod 2pi): the returned angles place the satellite where it is"
+        if not is_ecc:
+            prove(rep, f"{label}-argument-of-latitude[{t}]", goal, cons, timeout_ms=60000, sample=smp, **kw)
+            continue
+        # Every step below is a solver query.  Facts about the returned angles are proved on the real terms (F1 cosine, F2 unit circle, F3 sign of
+        # the sine from the quadrant rule); the algebra that combines them is proved once for arbitrary values (fresh variables), which is sound
+        # because it is then instantiated with the values of the real terms.
+        lc = z3.And(E > 0, E * E == A * A + B * B, cu * cu + su * su == 1)
+        okc = prove(rep, f"{label}-ecc-facts[{t}]", lc, cons, sample="on an eccentric path e > 0, e^2 = (e cos nu)^2 + (e sin nu)^2", **kw)
+
+        def angle_pair(nm, c_, s_, cexp, sexp, what):
+            f1 = c_ * E == cexp
+            f2 = c_ * c_ + s_ * s_ == 1
+            oks = [prove(rep, f"{label}-{nm}-cos[{t}]", f1, cons, sample=f"{what}: cosine", **kw),
+                   prove(rep, f"{label}-{nm}-circle[{t}]", f2, cons, sample=f"{what}: cos^2 + sin^2 = 1", **kw)]
+            C, S = z3.Real(f"{nm}_cos"), z3.Real(f"{nm}_sin")
+            if not (all(oks) and okc):
+                if any(o is None for o in oks + [okc]):
+                    rep.undecided(f"{label}-{nm}-sine[{t}]", "a fact this step depends on was not decided")
+                return None  # (a refuted fact is reported by its own item)
+            # algebra, for arbitrary values: (sin * e)^2 = (expected e*sin)^2
+            sq = lambda x: x * x  # noqa: E731
+            ok1 = prove(rep, f"{label}-{nm}-sine-magnitude[{t}]", sq(S * E) == sq(sexp), [C * E == cexp, C * C + S * S == 1, lc],
+                        sample=f"{what}: |sine| (algebra from cosine and unit circle, for arbitrary values)")
+            if not ok1:
+                return None
+            # sign: on one path the quadrant rule has fixed the sign of the returned sine and the path condition has fixed the sign of the
+            # quantity it tested; both are small queries.  (If they cannot be decided separately the combined statement is asked.)
+            from symx.core import refute
+
+            def sign(term, lem):
+                hy = _simplified(list(cons) + lem)
+                for sg, fact in ((1, term >= 0), (-1, term <= 0)):
+                    tgt = z3.And(fact, *lem) if lem else fact
+                    for sl in (slice_plus(tgt, hy, hop=0), slice_pc(tgt, hy, r.path.pc), slice_plus(tgt, hy, hop=4)):
+                        if refute(fact, sl, 4000).status == "unsat":
+                            return sg, fact
+                return None, None
+
+            sg_s, fact_s = sign(s_, [])
+            sg_x, fact_x = sign(sexp, [lc])
+            if sg_s is not None and sg_x is not None and sg_s == sg_x:
+                ok3 = prove(rep, f"{label}-{nm}-quadrant[{t}]", z3.And(fact_s, fact_x), cons, lemmas=[lc],
+                            sample=f"{what}: the quadrant rule gives the sine the sign of the tested quantity", **kw)
+                hyp = [sq(S * E) == sq(sexp), (S >= 0) if sg_s > 0 else (S <= 0), fact_x, lc]
+            else:
+                f3 = z3.And(z3.Implies(sexp < 0, s_ <= 0), z3.Implies(sexp >= 0, s_ >= 0))
+                ok3 = prove(rep, f"{label}-{nm}-quadrant[{t}]", f3, cons, lemmas=[sq(s_ * E) == sq(sexp), lc], sample=f"{what}: the quadrant rule gives the sine its sign", **kw)
+                hyp = [sq(S * E) == sq(sexp), z3.Implies(sexp < 0, S <= 0), z3.Implies(sexp >= 0, S >= 0), lc]
+            if not ok3:
+                if ok3 is None:
+                    rep.undecided(f"{label}-{nm}-sine[{t}]", "a fact this step depends on was not decided")
+                return None
+            ok = prove(rep, f"{label}-{nm}-sine[{t}]", S * E == sexp, hyp, sample=f"{what}: sine (algebra from magnitude and sign, for arbitrary values)")
+            return z3.And(c_ * E == cexp, s_ * E == sexp) if ok else None
+
+        la = angle_pair("true-anomaly", cv, sv, A, -B, "eccentric orbit: e cos nu = vt^2 rho/mu - 1, e sin nu = rho vr vt/mu")
+        lb = angle_pair("perigee", cw, sw, A * cu - B * su, A * su + B * cu,
+                        "eccentric orbit: the returned argument of perigee (true longitude of periapsis when equatorial) points along the eccentricity vector")
+        if la is None or lb is None:
+            continue
+        CV_, SV_, CW_, SW_ = (z3.Real(n) for n in ("nu_c", "nu_s", "argp_c", "argp_s"))
+        hyp = [CV_ * E == A, SV_ * E == -B, CW_ * E == A * cu - B * su, SW_ * E == A * su + B * cu, lc]
+        fin = z3.And(CW_ * CV_ - SW_ * SV_ == cu, SW_ * CV_ + CW_ * SV_ == su)
+        prove(rep, f"{label}-argument-of-latitude[{t}]", fin, hyp, timeout_ms=60000, sample=smp + " (addition formulas on the two proved pairs)")
     missing = set(expect_classes) - seen
     if missing:
         rep.error("reach", f"{label}: orbit classes (inclined, eccentric) not reached: {sorted(missing)}")
@@ -871,13 +1005,358 @@ def o3c_equatorial_direct(rep):
     _o3_check(rep, lambda: _Iface(raan_fixed=Fraction(0), inclined="direct"), "equatorial-band", [(False, True), (False, False)])
 
 
+RETRO_REGIONS = {"C12-retro-equatorial-eci2coe": z3.BoolVal(True)}
+
+
 def o3d_equatorial_retro(rep):
-    regions = {"C12-retro-equatorial-eci2coe": z3.BoolVal(True)}
-    _o3_check(rep, lambda: _Iface(inc_fixed=PI_F, raan_fixed=Fraction(0)), "retrograde-exact", [(False, True), (False, False)], regions)
-    _o3_check(rep, lambda: _Iface(raan_fixed=Fraction(0), inclined="retro"), "retrograde-band", [(False, True), (False, False)], regions)
+    _o3_check(rep, lambda: _Iface(inc_fixed=PI_F, raan_fixed=Fraction(0)), "retrograde-exact", [(False, True), (False, False)], RETRO_REGIONS)
 
 
-REPLAYS = {"O1": replay_sing, "O1b": replay_sing, "O1c": replay_sing, "O2a": replay_anom, "O2b": replay_anom, "O2c": replay_anom, "O3a": replay_coe2eci_form, "O3b": replay_eci2coe, "O3c": replay_eci2coe, "O3d": replay_eci2coe}
+def o3e_equatorial_retro_band(rep):
+    _o3_check(rep, lambda: _Iface(raan_fixed=Fraction(0), inclined="retro"), "retrograde-band", [(False, True), (False, False)], RETRO_REGIONS)
+
+
+
+# ====================================================================================================================
+# O6  state configurations: the three descriptions reach the conversion functions unchanged
+# ====================================================================================================================
+COE_VARIANTS = {
+    "full": ("true_anomaly", "right_ascension", "argument_periapsis"),
+    "equatorial": ("true_anomaly", "true_longitude_periapsis"),
+    "circular": ("right_ascension", "argument_latitude"),
+    "circular-equatorial": ("true_longitude",),
+}
+
+
+def _variant_elements(variant, f):
+    """(raan, argp, anomaly) in degrees that the documented field combination stands for"""
+    z = 0.0
+    if variant == "full":
+        return f["right_ascension"], f["argument_periapsis"], f["true_anomaly"]
+    if variant == "equatorial":
+        return z, f["true_longitude_periapsis"], f["true_anomaly"]
+    if variant == "circular":
+        return f["right_ascension"], z, f["argument_latitude"]
+    return z, z, f["true_longitude"]
+
+
+def replay_config(d):
+    from resonaate.physics.orbits.conversions import coe2eci, eqe2eci
+    from resonaate.physics.orbits.utils import singularityCheck
+    from resonaate.scenario.config.state_config import COEStateConfig, ECIStateConfig, EQEStateConfig
+
+    D = math.pi / 180.0
+    if d["kind"] == "eci":
+        x = ECIStateConfig(position=d["position"], velocity=d["velocity"]).toECI(None)
+        err = float(np.abs(np.asarray(x) - np.array(d["position"] + d["velocity"])).max())
+        return err > 0, {"error": err}
+    if d["kind"] == "coe":
+        f = d["fields"]
+        x = COEStateConfig(semi_major_axis=d["a"], eccentricity=d["e"], inclination=d["inc_deg"], **f).toECI(None)
+        raan, argp, anom = (v * D for v in _variant_elements(d["variant"], f))
+        ref = coe2eci(d["a"], d["e"], d["inc_deg"] * D, *singularityCheck(d["e"], d["inc_deg"] * D, raan, argp, anom))
+        err = float(np.abs(x - ref).max())
+        return err > KM_TOL / 2, {"state": x, "coe2eci of the described elements": ref, "error": err}
+    x = EQEStateConfig(semi_major_axis=d["a"], h=d["h"], k=d["k"], p=d["p"], q=d["q"], mean_longitude=d["lam_deg"], retrograde=d["retro"]).toECI(None)
+    ref = eqe2eci(d["a"], d["h"], d["k"], d["p"], d["q"], d["lam_deg"] * D, retro=d["retro"])
+    err = float(np.abs(x - ref).max())
+    return err > KM_TOL / 2, {"state": x, "eqe2eci of the described elements": ref, "error": err}
+
+
+def _deg(name, D):
+    """a configuration field in degrees whose value in radians (field * DEG2RAD, as the code converts it) is the symbolic angle `name`
+    in [0, 2pi): the angle algebra needs the radian value as its variable"""
+    r = _ang(name)
+    return r / D
+
+
+def o6a_config_coe(rep):
+    from resonaate.physics import constants as const
+    from resonaate.physics.orbits import conversions as CV
+    from resonaate.physics.orbits import elements as EL
+    from resonaate.scenario.config.state_config import COEStateConfig
+
+    D = const.DEG2RAD
+    for variant, names in COE_VARIANTS.items():
+        def run(variant=variant, names=names):
+            a, e, inc_rad = real("a"), real("e"), real("inc")
+            assume(a.t >= 6600, a.t <= 50000, e.t >= 0, e.t < rv(0.9), inc_rad.t >= 0, inc_rad.t <= PI)
+            inc_deg = inc_rad / D
+            f = {n: _deg(n, D) for n in names}
+            cfg = COEStateConfig.model_construct(semi_major_axis=a, eccentricity=e, inclination=inc_deg, **f)
+            cfg.validate_elements()
+            # attributes ClassicalElements computes besides the elements (period, mean motion, mean anomaly) do not enter toECI
+            with _quiet(), shadow(EL, getPeriod=lambda *a_, **k_: 0.0, getMeanMotion=lambda *a_, **k_: 0.0, trueAnom2MeanAnom=lambda *a_, **k_: 0.0):
+                x = cfg.toECI(None)
+            raan, argp, anom = (v * D for v in _variant_elements(variant, f))
+            raan, argp, anom = (v if isinstance(v, SReal) else SReal(0) for v in (raan, argp, anom))
+            inc = inc_deg * D
+            _i, _e, x_raan, x_argp, x_anom = _sing_expected(e.t, inc.t, raan.t, argp.t, anom.t)
+            ref = CV.coe2eci(a, e, inc, SReal(x_raan), SReal(x_argp), SReal(x_anom))
+            return x, ref, f
+
+        res = explore(run, max_paths=200)
+        rep.note(f"{variant}: paths={len(res)}")
+        n = 0
+        for r in res:
+            t = tag(r)
+            if r.exc is not None:
+                prove(rep, f"{variant}-no-exception[{t}]", z3.BoolVal(False), r.constraints, sample="toECI raises nothing for documented field ranges")
+                continue
+            x, ref, f = r.out
+
+            def inputs(m, variant=variant, f=f, r=r):
+                fl = {n: min(model_angle(m, r.path, z3.Real(n)) / D, 359.99999999999994) for n in f}
+                return {"kind": "coe", "variant": variant, "a": mfloat(m, z3.Real("a")), "e": mfloat(m, z3.Real("e")),
+                        "inc_deg": min(180.0, mfloat(m, z3.Real("inc")) / D), "fields": fl}
+
+            n += 1
+            for j in range(6):
+                prove(rep, f"{variant}-state[{j}][{t}]", close_arrays(x[j:j + 1], ref[j:j + 1], KM_TOL), r.constraints, inputs=inputs, replay=replay_config,
+                      sample="COEStateConfig.toECI = coe2eci of the elements the fields describe (degrees -> radians, documented singular-case folding)")
+        if n == 0:
+            rep.error("reach", f"{variant}: no path")
+        rep.reachable(f"{variant}-inputs", [z3.Real("a") == 7000])
+
+
+def o6b_config_eci_eqe(rep):
+    from resonaate.physics import constants as const
+    from resonaate.physics.orbits import anomaly as AN
+    from resonaate.physics.orbits import conversions as CV
+    from resonaate.physics.orbits import elements as EL
+    from resonaate.physics.orbits import utils as UT
+    from resonaate.scenario.config.state_config import ECIStateConfig, EQEStateConfig
+    from symx.core import reals
+
+    D = const.DEG2RAD
+    with single_path() as p:
+        pos, vel = reals("pos", 3), reals("vel", 3)
+        x = ECIStateConfig.model_construct(position=list(pos), velocity=list(vel)).toECI(None)
+        ref = np.concatenate([pos, vel])
+        inputs = lambda m: {"kind": "eci", "position": [mfloat(m, v.t) for v in pos], "velocity": [mfloat(m, v.t) for v in vel]}  # noqa: E731
+        for j in range(6):
+            prove(rep, f"eci-state[{j}]", _z(x[j]) == _z(ref[j]), p.constraints(), inputs=inputs, replay=replay_config, sample="ECIStateConfig.toECI = [position; velocity]")
+        rep.reachable("eci-inputs", [pos[0].t == 7000])
+
+    for retro in (False, True):
+        def run(retro=retro):
+            a, h, k, pp, q, lam = real("a"), real("h"), real("k"), real("p"), real("q"), _deg("lam", D)
+            assume(a.t >= 6600, a.t <= 50000, (h * h + k * k).t < rv(0.81), pp.t >= -50, pp.t <= 50, q.t >= -50, q.t <= 50)
+            cfg = EQEStateConfig.model_construct(semi_major_axis=a, h=h, k=k, p=pp, q=q, mean_longitude=lam, retrograde=retro)
+            ks = KeplerStub()
+            with _quiet(), shadow(EL, getPeriod=lambda *a_, **k_: 0.0, getMeanMotion=lambda *a_, **k_: 0.0), shadow(AN, keplerSolveEQE=ks.eqe), shadow(UT, arctan=arctan_via_arctan2):
+                x = cfg.toECI(None)
+                ref = CV.eqe2eci(a, h, k, pp, q, lam * D, retro=retro)
+            return x, ref, ks.axioms
+
+        res = explore_sliced(run, max_paths=200)
+        rep.note(f"eqe retro={retro}: paths={len(res)}")
+        n = 0
+        for r in res:
+            t = tag(r)
+            if r.exc is not None:
+                prove(rep, f"eqe-no-exception[retro={retro}][{t}]", z3.BoolVal(False), r.constraints, sample="toECI raises nothing for bound equinoctial elements")
+                continue
+            x, ref, axioms = r.out
+            cons = list(r.constraints)
+            lem = []
+            for i, (same, eq) in enumerate(axioms):  # the solver stub is a function: once the questions are proved equal, so are the answers
+                if prove(rep, f"eqe-same-question#{i}[retro={retro}][{t}]", same, cons, sample="the Kepler solver is asked for the same (wrapped) mean longitude by the configuration object and by eqe2eci"):
+                    lem.append(eq)
+
+            def inputs(m, retro=retro, r=r):
+                d = {"kind": "eqe", "retro": retro, "lam_deg": min(model_angle(m, r.path, z3.Real("lam")) / D, 359.99999999999994)}
+                for nm in ("a", "h", "k", "p", "q"):
+                    d[nm] = mfloat(m, z3.Real(nm))
+                return d
+
+            n += 1
+            for j in range(6):
+                prove(rep, f"eqe-state[{j}][retro={retro}][{t}]", close_arrays(x[j:j + 1], ref[j:j + 1], KM_TOL), cons, lemmas=lem, inputs=inputs, replay=replay_config,
+                      sample="EQEStateConfig.toECI = eqe2eci of the configured elements (mean longitude degrees -> radians, retrograde flag passed on)")
+        if n == 0:
+            rep.error("reach", f"eqe retro={retro}: no path")
+    rep.reachable("eqe-inputs", [z3.Real("a") == 7000])
+
+
+
+# ====================================================================================================================
+# O4  equinoctial elements
+# ====================================================================================================================
+def _half_inc(retro):
+    """inclination as 2*eta with eta = arcsin(sh) in [0, pi/2]: tan(inc/2) = sin(eta)/cos(eta) is then a ratio of the pair the algebra knows"""
+    sh = real("sin_half_inc")
+    if retro:
+        assume(sh.t >= rv(0.01), sh.t <= 1)       # tan(inc/2)^-1: inc > 0
+    else:
+        assume(sh.t >= 0, sh.t <= rv(0.9999))     # tan(inc/2): inc < pi
+    eta = sh.arcsin()
+    return sh, eta, 2 * eta
+
+
+def replay_eqe_frame(d):
+    from resonaate.physics import maths as M
+    from resonaate.physics.orbits import utils as UT
+    from resonaate.physics.orbits.conversions import coe2eqe, eqe2coe
+
+    e, raan, argp, nu, retro = d["e"], d["raan"], d["argp"], d["nu"], d["retro"]
+    inc = 2 * math.asin(d["sin_half_inc"])
+    II = -1 if retro else 1
+    sma, h, k, p, q, lam = coe2eqe(7000.0, e, inc, raan, argp, nu, retro=retro)
+    f, g = UT.getEquinoctialBasisVectors(p, q, retro=retro)
+    R = M.rot3(-raan) @ M.rot1(-inc) @ M.rot3(II * raan)
+    err_f = float(np.abs(np.concatenate([f - R[:, 0], g - R[:, 1]])).max())
+    out = {"frame_error": err_f, "h^2+k^2-e^2": h * h + k * k - e * e}
+    bad = err_f > 1e-9 or abs(h * h + k * k - e * e) > 1e-12
+    if e >= TOL_E and TOL_I <= inc <= math.pi - TOL_I:
+        back = [float(v) for v in eqe2coe(sma, h, k, p, q, lam, retro=retro)]
+        errs = [abs(back[1] - e), abs(back[2] - inc), _circ_dist(back[3], raan), _circ_dist(back[4], argp), _circ_dist(back[5], nu)]
+        out["eqe2coe(coe2eqe) errors (e, inc, raan, argp, nu)"] = errs
+        bad = bad or max(errs) > 1e-7
+    return bad, out
+
+
+def _o4_frame_part(rep, p, retro, II, inputs_for, CV, UT):
+    a, e = real("a"), real("e")
+    assume(a.t >= 6600, a.t <= 50000, e.t >= 0, e.t < rv(0.9))
+    sh, eta, inc = _half_inc(retro)
+    raan, argp, nu = _ang("raan"), _ang("argp"), _ang("nu")
+    lam0 = _ang("lam0")
+    seen = {}
+
+    def prov_lam(*args, **kw):
+        seen["call"] = (args, kw)
+        return lam0
+
+    with _quiet(), shadow(CV, trueAnom2MeanLong=prov_lam):
+        sma, h, k, pp, q, lam = CV.coe2eqe(a, e, inc, raan, argp, nu, retro=retro)
+        f, g = UT.getEquinoctialBasisVectors(pp, q, retro=retro)
+    uh, wh, hh = _frame(raan, inc, raan * (-II))  # rot3(-raan) rot1(-inc) rot3(II*raan)
+    cons = p.constraints()
+    kw = dict(inputs=inputs_for(p), replay=replay_eqe_frame)
+    t = f"retro={retro}"
+    args, kwargs = seen["call"]
+    flow = z3.And(_z(args[0]) == nu.t, _z(args[1]) == e.t, _z(args[2]) == raan.t, _z(args[3]) == argp.t, z3.BoolVal(bool(kwargs.get("retro", False)) == retro),
+                  _z(lam) == lam0.t, _z(sma) == a.t)
+    prove(rep, f"coe2eqe-mean-longitude-call[{t}]", flow, cons, sample="coe2eqe: mean longitude = trueAnom2MeanLong(nu, ecc, raan, argp, retro); sma passed through", **kw)
+    prove(rep, f"h2+k2=e2[{t}]", _close((h * h + k * k).t, (e * e).t, 1e-12), cons, sample="h^2 + k^2 = e^2", **kw)
+    ce, se = eta.cos().t, eta.sin().t
+    T = z3.Real("tan_half_inc") if not retro else z3.Real("cot_half_inc")
+    tl = (T * ce == se) if not retro else (T * se == ce)
+    okp = prove(rep, f"p-q-definition[{t}]", z3.And(_z(pp) == T * raan.sin().t, _z(q) == T * raan.cos().t), cons + [tl],
+                sample="p = tan(inc/2)^I sin raan, q = tan(inc/2)^I cos raan (with tan written as the ratio sin/cos of the half angle)", **kw)
+    # the frame identity is then algebra in (T, cos/sin raan, cos/sin eta): proved with p, q named (generalisation)
+    P_, Q_ = z3.Real("p_eq"), z3.Real("q_eq")
+    fg = UT.getEquinoctialBasisVectors(SReal(P_), SReal(Q_), retro=retro)
+    hyp = [P_ == T * raan.sin().t, Q_ == T * raan.cos().t, tl, ce * ce + se * se == 1, raan.cos().t * raan.cos().t + raan.sin().t * raan.sin().t == 1,
+           (ce > 0) if not retro else (se > 0)]
+    okq = prove(rep, f"half-angle-positive[{t}]", hyp[-1], cons, sample="cos(inc/2) > 0 (sin(inc/2) > 0 for the retrograde set) inside the bounds", **kw)
+    for nm, vec, ref in (("f", fg[0], uh), ("g", fg[1], wh)):
+        for j in range(3):
+            if okp and okq:
+                prove(rep, f"frame-{nm}[{j}][{t}]", _close(_z(vec[j]), ref[j].t, 1e-9), hyp, timeout_ms=60000,
+                      sample=f"equinoctial {nm} = column of rot3(-raan) rot1(-inc) rot3(I raan) (algebra over p, q, tan(inc/2), for arbitrary values)")
+    rep.reachable(f"inputs[{t}]", cons + [e.t == rv(Fraction(1, 2)), sh.t == rv(Fraction(3, 5))] + angle_pins(p, ("raan", "argp", "nu", "lam0"), 1))
+
+
+
+def o4a_eqe_elements(rep):
+    _o4_eqe(rep, "frame")
+
+
+def o4b_eqe2coe(rep):
+    _o4_eqe(rep, "eqe2coe")
+
+
+def _o4_eqe(rep, part):
+    from resonaate.physics.orbits import conversions as CV
+    from resonaate.physics.orbits import utils as UT
+
+    for retro in (False, True):
+        II = -1 if retro else 1
+
+        def inputs_for(path, retro=retro):
+            def inputs(m):
+                d = {"e": mfloat(m, z3.Real("e")), "sin_half_inc": mfloat(m, z3.Real("sin_half_inc")), "retro": retro}
+                for n in ("raan", "argp", "nu"):
+                    d[n] = model_angle(m, path, z3.Real(n))
+                return d
+            return inputs
+
+        # ---- (A) coe2eqe and the equinoctial frame: straight-line code --------------------------------------------------
+        with single_path() as p:
+            if part == "frame":
+                _o4_frame_part(rep, p, retro, II, inputs_for, CV, UT)
+        if part == "frame":
+            continue
+
+        # ---- (B) eqe2coe(coe2eqe(.)) on inclined eccentric orbits: elements recovered -----------------------------------------
+        def run(retro=retro, II=II):
+            a, e = real("a"), real("e")
+            assume(a.t >= 6600, a.t <= 50000, e.t >= rv(TOL_E), e.t < rv(0.9))
+            sh, eta, inc = _half_inc(retro)
+            assume(sh.t >= rv(0.01), sh.t <= rv(0.9999))
+            raan, argp, nu = _ang("raan"), _ang("argp"), _ang("nu")
+            lam0, nu0 = _ang("lam0"), _ang("nu0")
+            seen = {}
+
+            def prov_nu(*args, **kw):
+                seen["call"] = (args, kw)
+                return nu0
+
+            with _quiet(), shadow(CV, trueAnom2MeanLong=lambda *a_, **k_: lam0, meanLong2TrueAnom=prov_nu), shadow(UT, arctan=arctan_via_arctan2):
+                el = CV.coe2eqe(a, e, inc, raan, argp, nu, retro=retro)
+                back = CV.eqe2coe(*el, retro=retro)
+            lems = [identify_lemma(back[2], inc), identify_lemma(back[3], raan), identify_lemma(back[4], argp)] if all(isinstance(back[j], SReal) for j in (2, 3, 4)) else None
+            return dict(a=a, e=e, inc=inc, raan=raan, argp=argp, lam0=lam0, nu0=nu0, back=back, seen=seen, lems=lems)
+
+        res = explore_sliced(run, max_paths=100, branch_timeout_ms=4000)
+        rep.note(f"eqe2coe retro={retro}: paths={len(res)}")
+        n = 0
+        for r in res:
+            t = f"retro={retro}][{tag(r)}"
+            if r.exc is not None:
+                prove(rep, f"eqe2coe-no-exception[{t}]", z3.BoolVal(False), r.constraints, pc=r.path.pc, sample="eqe2coe raises nothing on an inclined eccentric orbit")
+                continue
+            o = r.out
+            cons = r.constraints
+            kw = dict(inputs=inputs_for(r.path), replay=replay_eqe_frame, pc=r.path.pc)
+            pins = [[z3.Real("e") == rv(Fraction(3, 5)), z3.Real("sin_half_inc") == rv(Fraction(3, 5))] + angle_pins(r.path, ("raan", "argp", "nu", "lam0", "nu0"), k_) for k_ in range(12)]
+            if reach(rep, f"eqe2coe-path[{t}]", cons, pins) is None and rep.feasible(f"eqe2coe-path?[{t}]", cons, timeout_ms=5000) is None:
+                continue
+            n += 1
+            b = o["back"]
+            e = o["e"].t
+            prove(rep, f"eqe2coe-sma-ecc[{t}]", z3.And(_z(b[0]) == o["a"].t, _close(_z(b[1]), e, 1e-12)), cons, sample="eqe2coe: sma passed through, ecc = sqrt(h^2+k^2) = e", **kw)
+            margs, mkw = o["seen"]["call"]
+            prove(rep, f"eqe2coe-anomaly-call[{t}]", z3.And(_z(margs[0]) == o["lam0"].t, _close(_z(margs[1]), e, 1e-12), z3.BoolVal(bool(mkw.get("retro", False)) == retro)), cons,
+                  sample="eqe2coe: true anomaly = meanLong2TrueAnom(mean longitude, ecc, raan, argp, retro)", **kw)
+            # the raan / argp handed to meanLong2TrueAnom enter only through argp + I raan there: that combination must be the original one (mod 2pi)
+            if o["lems"] is None:
+                rep.error(f"eqe2coe-shape[{t}]", "eqe2coe returned constants for inc/raan/argp on an inclined eccentric orbit")
+                continue
+            # the norms eqe2coe takes: sqrt(h^2+k^2) = e, sqrt(p^2+q^2) = tan(inc/2)^I (each proved, then available as lemmas)
+            sq_lem = []
+            with resume(r.path):
+                ce_, se_ = (o["inc"] * 0.5).cos().t, (o["inc"] * 0.5).sin().t
+            for (rt, arg) in r.path.apps.get("sqrt", []):
+                for cand in (e, se_ / ce_, ce_ / se_):
+                    from symx.core import refute as _rf
+
+                    fact = rt == cand
+                    if _rf(fact, slice_plus(fact, _simplified(cons), hop=0), 3000).status == "unsat":
+                        if prove(rep, f"eqe2coe-norm#{len(sq_lem)}[{t}]", fact, cons, sample="a norm taken by eqe2coe equals e or tan(inc/2)^I", **kw):
+                            sq_lem.append(fact)
+                        break
+            for nm, j, want, (prem, concl) in (("inc", 2, o["inc"], o["lems"][0]), ("raan", 3, o["raan"], o["lems"][1]), ("argp", 4, o["argp"], o["lems"][2])):
+                if prove(rep, f"eqe2coe-{nm}-cos-sin[{t}]", prem, cons, lemmas=sq_lem, timeout_ms=60000, sample=f"eqe2coe(coe2eqe): {nm} has the cosine and sine of the original", **kw):
+                    prove(rep, f"eqe2coe-{nm}[{t}]", _close(_z(b[j]), want.t), list(cons) + [concl], sample=f"eqe2coe(coe2eqe): {nm} recovered (inclined eccentric orbit)", **kw)
+            prove(rep, f"eqe2coe-anomaly[{t}]", _z(b[5]) == o["nu0"].t, cons, sample="eqe2coe: the true anomaly returned is the one meanLong2TrueAnom gave (already in [0, 2pi))", **kw)
+        if n == 0:
+            rep.error("reach", f"eqe2coe retro={retro}: no feasible path")
+
+
+REPLAYS = {"O1": replay_sing, "O1b": replay_sing, "O1c": replay_sing, "O2a": replay_anom, "O2b": replay_anom, "O2c": replay_anom, "O3a": replay_coe2eci_form, "O3b": replay_eci2coe, "O3c": replay_eci2coe, "O3d": replay_eci2coe, "O3e": replay_eci2coe, "O4a": replay_eqe_frame, "O4b": replay_eqe_frame, "O6a": replay_config, "O6b": replay_config}
 
 
 def obligations(tier):
@@ -894,7 +1373,15 @@ def obligations(tier):
     obs += [
         Ob("O3b", o3b_inclined, "eci2coe on inclined orbits in general position (eccentric, circular, threshold straddled): elements describe the state", 400),
         Ob("O3c", o3c_equatorial_direct, "eci2coe on direct equatorial orbits (exact and inside the threshold band)", 400),
-        Ob("O3d", o3d_equatorial_retro, "eci2coe on retrograde equatorial orbits (exact and inside the threshold band)", 400),
+        Ob("O3d", o3d_equatorial_retro, "eci2coe on exactly retrograde equatorial orbits (inc = pi)", 400),
     ]
+    if tier == "thorough":
+        obs.append(Ob("O3e", o3e_equatorial_retro_band, "eci2coe on retrograde orbits inside the equatorial threshold band (pi - limit < inc < pi)", 900))
+    obs += [
+        Ob("O6a", o6a_config_coe, "COEStateConfig.toECI for the four documented field combinations = coe2eci of the described elements", 300),
+        Ob("O6b", o6b_config_eci_eqe, "ECIStateConfig / EQEStateConfig.toECI hand the configured numbers to hstack / eqe2eci unchanged", 300),
+    ]
+    obs.append(Ob("O4a", o4a_eqe_elements, "coe2eqe / getEquinoctialBasisVectors: p, q, h, k definitions, equinoctial frame = rot3(-raan) rot1(-inc) rot3(I raan)", 400))
+    obs.append(Ob("O4b", o4b_eqe2coe, "eqe2coe(coe2eqe(.)) on inclined eccentric orbits: ecc, inc, raan, argp recovered; calls of the longitude conversions", 400))
     obs.append(Ob("O3a", o3a_coe2eci, "coe2eci has the interface form (rho, vr, vt; raan, inc, argp+nu); closing scalar relations", 180))
     return obs
